@@ -116,6 +116,7 @@ inductive Op
   | poll (t : Tid) (f : Key)
   | dropFuture (t : Tid) (f : Key)
   | dropFutureHolding (t : Tid) (f k : Key)       -- the instrumented inner future owns handle k: dropped with it
+  | intoInner (f : Key)                           -- f.into_inner(): the wrapper is taken apart, its span handle dropped (no enter / exit)
   | setDefault (t : Tid) (c : Option Cid)
 deriving Repr
 
@@ -218,6 +219,10 @@ def step (s : PState) : Op → PState
     match take f s.owners with
     | some (o, rest) =>
       if o.kind = .future then doClose (doExit (dropHandle (doEnter { s with owners := rest } o.ref t) k) o.ref t) o.ref else s
+    | none => s
+  | .intoInner f =>
+    match take f s.owners with
+    | some (o, rest) => if o.kind = .future then doClose { s with owners := rest } o.ref else s
     | none => s
   | .setDefault t c => { s with dflt := update s.dflt t c }
 
